@@ -32,6 +32,7 @@ CONSTANTS Seed,        \* integer folded into every data set (VERIF_SEED)
           Orders,      \* Hermite polynomial counts in scope, e.g. {5, 20, 40}
           RawSets,     \* one-variable raw data sets in scope, subset of {"skew","ties","tsel"}
           MultiSets,   \* multi-variable data sets in scope, subset of {"m1","m2","m3"}
+          TailSets,    \* raw data sets (Hermite only) whose fit has linear tails, subset of {"upsk","losk","bosk"}
           RotElems,    \* rotation elements in scope (ids, see Rot below)
           RCoefs       \* change-of-support coefficients in scope, in percent (100 = point support), e.g. {100, 90, 70, 50}
 
@@ -78,7 +79,8 @@ ExactZero == -9999    \* code of an error that is exactly 0
 (* vars = one sequence per coordinate).  Samples sit on a lattice 4 wide     *)
 (* (x = (i-1) % 4, y = (i-1) \div 4), which only matters to MAF.             *)
 
-DS(scale, vars, sel) == [scale |-> scale, vars |-> vars, sel |-> sel, n |-> Len(sel), nvar |-> Len(vars)]
+\* the values are vars / den (den = 1 but for the Gaussian-scale set in tenths); ranks and NA only need the numerators
+DS(scale, vars, sel) == [scale |-> scale, vars |-> vars, sel |-> sel, n |-> Len(sel), nvar |-> Len(vars), den |-> 1]
 All1(n) == [i \in 1..n |-> 1]
 SkewVal(k) == 1 + k + (k * k * k) \div 60         \* strictly increasing, lognormal-like tail
 Sq(x) == x * x
@@ -91,6 +93,16 @@ Data(name) ==
     [] name = "tsel" ->  \* 22 samples, ties, undefined values and a selection
          DS("raw", << [i \in 1..22 |-> IF i % 9 = 4 THEN NA ELSE 2 + 3 * Sq((i * 5 + Seed) % 8)] >>,
             [i \in 1..22 |-> IF i % 5 = 2 THEN 0 ELSE 1])
+    \* Data whose Hermite expansion (12 polynomials and more) stops being monotone INSIDE the data range, so that the
+    \* practical interval is strictly inside the absolute one and data sit in the linear tail extension:
+    [] name = "upsk" ->  \* negatively skewed: upper tail only (lower practical and absolute bounds coincide)
+         DS("raw", << [i \in 1..24 |-> 717 - (1 + ((i * 7 + Seed) % 24) + (((i * 7 + Seed) % 24) * ((i * 7 + Seed) % 24) * ((i * 7 + Seed) % 24)) \div 20)] >>, All1(24))
+    [] name = "losk" ->  \* positively skewed, heavier than "skew": lower tail only
+         DS("raw", << [i \in 1..24 |-> 1 + ((i * 7 + Seed) % 24) + (((i * 7 + Seed) % 24) * ((i * 7 + Seed) % 24) * ((i * 7 + Seed) % 24)) \div 20] >>, All1(24))
+    [] name = "bosk" ->  \* 40 values: tails on both sides at 12 polynomials
+         DS("raw", << [i \in 1..40 |-> SkewVal((i * 7 + Seed) % 40)] >>, All1(40))
+    [] name = "gt" ->    \* Gaussian-scale values in tenths, -2.9 .. 3.1 by 0.3: reach the intervals between practical and absolute bounds
+         [DS("gauss", << [i \in 1..21 |-> ((i * 8 + Seed) % 21) * 3 - 29] >>, All1(21)) EXCEPT !.den = 10]
     [] name = "g" ->     \* Gaussian-scale integers with ties
          DS("gauss", << [i \in 1..15 |-> ((i * 4 + Seed) % 5) - 2] >>, All1(15))
     [] name = "m1" ->
@@ -110,7 +122,7 @@ Data(name) ==
     [] name = "p2" -> DS("pts", << <<0, 5, 3, -2, 10, 1>>, <<0, 0, 4, 7, -5, 1>> >>, All1(6))
     [] name = "p3" -> DS("pts", << <<0, 5, 3, -2, 1>>, <<0, 0, 4, 7, 1>>, <<0, 10, -5, 2, 1>> >>, All1(5))
 
-AllDataNames == {"skew", "ties", "tsel", "g", "m1", "m2", "m3", "f1", "f2", "f3", "p2", "p3"}
+AllDataNames == {"skew", "ties", "tsel", "upsk", "losk", "bosk", "gt", "g", "m1", "m2", "m3", "f1", "f2", "f3", "p2", "p3"}
 
 \* a sample takes part in a computation when it is selected and all its variables are defined
 Active(ds, i) == ds.sel[i] = 1
@@ -176,13 +188,15 @@ OptsOf(kind) == CASE kind = "AH" -> Orders
                   [] kind = "MAF" -> {1, 2}
                   [] kind = "ROT" -> RotElems
                   [] kind = "NS" -> {0}
-FitSets(kind) == CASE kind \in {"AH", "AE"} -> RawSets
+FitSets(kind) == CASE kind = "AH" -> RawSets \cup TailSets
+                   [] kind = "AE" -> RawSets
                    [] kind \in {"PCA", "MAF"} -> MultiSets
                    [] kind = "ROT" -> {"-"}
                    [] kind = "NS" -> {}
 FacSetFor(nv) == IF nv = 1 THEN "f1" ELSE IF nv = 2 THEN "f2" ELSE "f3"
 \* base data sets an operation may start from
-BaseSets(kind) == CASE kind \in {"AH", "AE"} -> RawSets \cup {"g"}
+BaseSets(kind) == CASE kind = "AH" -> RawSets \cup TailSets \cup {"g", "gt"}
+                    [] kind = "AE" -> RawSets \cup {"g"}
                     [] kind \in {"PCA", "MAF"} -> MultiSets \cup {FacSetFor(Data(m).nvar) : m \in MultiSets}
                     [] kind = "NS" -> RawSets
                     [] kind = "ROT" -> {"p2", "p3"}
@@ -311,18 +325,24 @@ SameAs(kind, st, k) ==
 \cup (IF IsIdentityNF(kind, key.base, key.nf) THEN {DRef(key.base)} ELSE {})
 
 -----------------------------------------------------------------------------
-(* Validity domain of one application, as REPORTED by the fitted object: for *)
-(* the anamorphoses the intersection of the practical and of the absolute    *)
-(* interval (raw side for fwd, Gaussian side for inv; AnamHermite may report *)
-(* absolute bounds narrower than the practical ones when the expansion       *)
-(* oscillates in the tails), both taken OPEN as the library's Interval does;  *)
-(* after a change of support the object keeps its Gaussian interval and the   *)
-(* raw values it can invert are the image of that interval by its own (block)  *)
-(* transformToRawValue, inside the raw interval it still reports;             *)
-(* everything for PCA / MAF / normal score /                                  *)
-(* rotation.  An element that is masked, undefined or outside the domain at  *)
-(* some step is never compared afterwards (the harness reports the mask,     *)
-(* TraceTransforms checks that it is not shrunk where no restriction exists). *)
+(* Validity domain of one application, as REPORTED by the fitted object.      *)
+(* Hermite anamorphosis, point support: the OPEN absolute interval (raw side  *)
+(* for fwd, Gaussian side for inv).  Between the practical and the absolute   *)
+(* bound the transform is, by construction of both directions, the linear     *)
+(* map sending (absolute bound, practical bound) of one scale to those of the *)
+(* other: the round-trip law holds there exactly, and both directions are     *)
+(* monotone across the junction.  Outside the absolute interval the transform *)
+(* clamps: nothing is promised.  The absolute interval must contain the       *)
+(* practical one ("bounds-nested"; when the library reports it the other way  *)
+(* round -- a recorded finding -- the absolute interval is the domain anyway). *)
+(* After a change of support the object keeps its (point) bounds: the domain  *)
+(* is the open practical-and-absolute Gaussian interval and, on the raw side, *)
+(* its image by the object's own (block) transformToRawValue inside the raw   *)
+(* interval still reported.  Empirical anamorphosis: the interval of its      *)
+(* table.  Everything for PCA / MAF / normal score / rotation.  An element    *)
+(* that is masked, undefined or outside the domain at some step is never      *)
+(* compared afterwards (the harness reports the mask, TraceTransforms checks  *)
+(* that it is not shrunk where no restriction exists).                        *)
 (*                                                                         *)
 (* Monotonicity demanded of one application (its validity domain only):     *)
 (*  "iso"    the rank pattern of the output equals that of the input         *)
